@@ -103,6 +103,7 @@ type Unit struct {
 	aborted  bool
 	litArr   map[string]*Term
 	ctxBase  *Term
+	noNilMerge bool
 	NAssumeCalls int
 	inInit   bool
 	Standalone int
